@@ -235,10 +235,16 @@ _op('eq_public', _real_eqp, lambda t, a, p: [int(a[0] == a[1])], is_async=True)
 async def finish(ctx):
     rt = ctx.rt
     futs = []
-    for v in ctx.prog['outputs']:
+    public = {}
+    for k, v in enumerate(ctx.prog['outputs']):
         x = ctx.env[v]
-        futs.append(rt.output(x))
-    vals = await rt.gather(futs)
+        if isinstance(x, int) and not isinstance(x, bool):
+            public[k] = x          # some functions return public Python ints for empty inputs (find([], a), ...)
+        else:
+            futs.append(rt.output(x))
+    vals = list(await rt.gather(futs))
+    for k in sorted(public):
+        vals.insert(k, public[k])
     return {'out': [plain(v) for v in vals], 'log': ctx.log}
 
 
